@@ -31,6 +31,7 @@ def line_options(starts, quick):
         opts.append(('nop', s, 1))
         opts.append(('ldi', s, 2))
         opts.append(('jmp', s, 3))
+        opts.append(('m2', s, 4))             # macro of two 12-bit steps, each padded on its own: 4 bytes
         if 2 <= s <= 8:
             opts.append(('zorg1', s, 2))      # .org (s-2) "z1"
         if 4 <= s <= 10:
@@ -65,6 +66,8 @@ def place(lines):
             body = [('org', s, None), ('ldi', 'a', m)]
         elif kind == 'jmp':
             body = [('org', s, None), ('jmp', 0x20 + i)]
+        elif kind == 'm2':
+            body = [('org', s, None), ('m2', m & 0xFF, (m + 1) & 0xFF)]
         elif kind == 'zorg1':
             body = [('org', s - 2, 'z1'), ('data', 1, [m, m + 1])]
         elif kind == 'zorg2':
@@ -90,7 +93,7 @@ def meta(tier):
                 'zero-length line lies inside another range; every pair (and every touching triple) is run a second time with '
                 '--no-binary and one of the four pretty-print formats, judged on acceptance only; states = distinct sets of occupied (address, owner) cells',
         'bounds': {'starts': 'pairs 0..6; triples 0..3 (quick) / 0..6 (thorough)',
-                   'kinds': ['.byte x1..3', '.fill 0|1|3', '.zerountil (len 2, len 0)', 'nop', 'ldi', 'jmp',
+                   'kinds': ['.byte x1..3', '.fill 0|1|3', '.zerountil (len 2, len 0)', 'nop', 'ldi', 'jmp', 'm2 (macro of two 12-bit steps)',
                              '.org k "z1" (z1=2..9)', '.org k "z2" (z2=4..12, overlapping z1)', 'line in an included file',
                              'predefined data block'],
                    'orders': 'all permutations (ordered tuples)'},
@@ -121,7 +124,7 @@ def shard(acc, tier, idx, n):
     pair_opts = line_options(range(0, 7), q)
     tri_opts = line_options(range(0, 4) if q else range(0, 7), q)
     if q:
-        tri_opts = [o for o in tri_opts if o[0] in ('bytes', 'fill', 'jmp', 'zorg1', 'inc', 'predef') and not (o[0] == 'bytes' and o[2] == 2)]
+        tri_opts = [o for o in tri_opts if o[0] in ('bytes', 'fill', 'jmp', 'm2', 'zorg1', 'inc', 'predef') and not (o[0] == 'bytes' and o[2] == 2)]
     plans = [(pair_opts, 2), (tri_opts, 3)]
     if not q:
         quad = [o for o in line_options(range(0, 4), q) if o[0] in ('bytes', 'fill', 'predef') and o[2] in (0, 2)]
